@@ -27,14 +27,19 @@ import (
 )
 
 type spanSink struct {
-	mu    sync.Mutex
-	names map[string]int
+	mu     sync.Mutex
+	names  map[string]int
+	scopes map[string]string // span name -> the instrumentation scope the SDK was asked for
 }
 
 func (s *spanSink) OnStart(context.Context, sdktrace.ReadWriteSpan) {}
 func (s *spanSink) OnEnd(sp sdktrace.ReadOnlySpan) {
 	s.mu.Lock()
 	s.names[sp.Name()]++
+	if s.scopes != nil {
+		sc := sp.InstrumentationScope()
+		s.scopes[sp.Name()] = fmt.Sprintf("%s|%s|%s|%s", sc.Name, sc.Version, sc.SchemaURL, sc.Attributes.Encoded(attribute.DefaultEncoder()))
+	}
 	s.mu.Unlock()
 }
 func (s *spanSink) Shutdown(context.Context) error   { return nil }
@@ -110,7 +115,7 @@ func runTrial(k *vf.Case) {
 		toInstall = refusingProvider{smp}
 		k.C.Count("trials_with_a_refusing_provider", 1)
 	}
-	sink := &spanSink{names: map[string]int{}}
+	sink := &spanSink{names: map[string]int{}, scopes: map[string]string{}}
 	stp := sdktrace.NewTracerProvider(sdktrace.WithSpanProcessor(sink), sdktrace.WithSampler(sdktrace.AlwaysSample()))
 
 	var mu sync.Mutex
@@ -118,7 +123,7 @@ func runTrial(k *vf.Case) {
 	var asyncs []asyncHandle
 	var regs []*regHandle
 	var tracers []trace.Tracer
-	var tracerNames []string
+	var tracerNames, tracerScopes []string
 	nextID := 0
 	newID := func() int {
 		mu.Lock()
@@ -252,10 +257,25 @@ func runTrial(k *vf.Case) {
 	}
 	createTracer := func(gr *vf.RNG) {
 		name := fmt.Sprintf("t%d", gr.Intn(30))
-		t := otel.Tracer(name)
+		// a tracer is asked for with a whole scope (version, schema URL, attributes), not just a name
+		var topts []trace.TracerOption
+		want := name + "|||"
+		switch gr.Intn(4) {
+		case 0:
+			topts = append(topts, trace.WithInstrumentationVersion("v7"))
+			want = name + "|v7||"
+		case 1:
+			topts = append(topts, trace.WithInstrumentationAttributes(attribute.String("tenant", name)))
+			want = name + "|||tenant=" + name
+		case 2:
+			topts = append(topts, trace.WithInstrumentationVersion("v7"), trace.WithSchemaURL("https://example.com/s"), trace.WithInstrumentationAttributes(attribute.Int("shard", 3)))
+			want = name + "|v7|https://example.com/s|shard=3"
+		}
+		t := otel.Tracer(name, topts...)
 		mu.Lock()
 		tracers = append(tracers, t)
 		tracerNames = append(tracerNames, name)
+		tracerScopes = append(tracerScopes, want)
 		mu.Unlock()
 	}
 	// ---- pre-installation population
@@ -643,6 +663,12 @@ func runTrial(k *vf.Case) {
 	for i := range tracers {
 		if sink.names[fmt.Sprintf("post-dead-%d", i)] != 1 {
 			k.Violate("span-after-install-lost", "done context", fmt.Sprintf("%s\nspan post-dead-%d reached the SDK %d times", cfg, i, sink.names[fmt.Sprintf("post-dead-%d", i)]), nil)
+			break
+		}
+	}
+	for i := range tracers {
+		if got := sink.scopes[fmt.Sprintf("post-%d", i)]; sink.names[fmt.Sprintf("post-%d", i)] == 1 && got != tracerScopes[i] {
+			k.Violate("span-under-another-scope", "", fmt.Sprintf("%s\ntracer %d was asked for as scope %q; its span reached the SDK under %q", cfg, i, tracerScopes[i], got), nil)
 			break
 		}
 	}
